@@ -1,24 +1,25 @@
 #!/bin/bash
 # usage: try_mutant_iso.sh <patch.diff> <prop> [<prop>...]
 # Like try_mutant.sh, but leaves /repo alone: the patch is applied to a scratch worktree of /repo
-# (/var/tmp/mrepo) and the simulator is built from a scratch copy of /verif/sim whose tarpc path
-# dependency points there (/var/tmp/msim). Use while something else (a background thorough run)
-# is building from /repo. Evidence and replays go to /var/tmp/mverif.
+# (/var/tmp/mrepo$S) and the simulator is built from a scratch copy of /verif/sim whose tarpc path
+# dependency points there (/var/tmp/msim$S). Use while something else (a background thorough run)
+# is building from /repo. Evidence and replays go to /var/tmp/mverif$S.
 set -u
 patch="$(readlink -f "$1")"; shift
-if [ ! -d /var/tmp/mrepo ]; then git -C /repo worktree add -q --detach /var/tmp/mrepo HEAD || exit 2; fi
-git -C /var/tmp/mrepo reset -q --hard "$(git -C /repo rev-parse HEAD)"
-mkdir -p /var/tmp/msim /var/tmp/mverif
-rsync -a --delete --exclude target --exclude build.log --exclude 'last-*.stderr' /verif/sim/ /var/tmp/msim/
-sed -i 's#path = "/repo/tarpc"#path = "/var/tmp/mrepo/tarpc"#' /var/tmp/msim/Cargo.toml
-cp /verif/known_findings.json /var/tmp/mverif/
-cd /var/tmp/mrepo || exit 2
+S="${ISO_SUFFIX:-}"   # several of these can run side by side, each with its own suffix
+if [ ! -d /var/tmp/mrepo$S ]; then git -C /repo worktree add -q --detach /var/tmp/mrepo$S HEAD || exit 2; fi
+git -C /var/tmp/mrepo$S reset -q --hard "$(git -C /repo rev-parse HEAD)"
+mkdir -p /var/tmp/msim$S /var/tmp/mverif$S
+rsync -a --delete --exclude target --exclude build.log --exclude 'last-*.stderr' /verif/sim/ /var/tmp/msim$S/
+sed -i "s#path = \"/repo/tarpc\"#path = \"/var/tmp/mrepo$S/tarpc\"#" /var/tmp/msim$S/Cargo.toml
+cp /verif/known_findings.json /var/tmp/mverif$S/
+cd /var/tmp/mrepo$S || exit 2
 if ! git apply "$patch" 2>/dev/null; then echo "patch does not apply cleanly"; exit 2; fi
-cd /var/tmp/msim || exit 2
-if ! CARGO_NET_OFFLINE=true cargo build --release --offline >/var/tmp/msim/build.log 2>&1; then echo "build failed"; tail -5 /var/tmp/msim/build.log; git -C /var/tmp/mrepo reset -q --hard; exit 2; fi
+cd /var/tmp/msim$S || exit 2
+if ! CARGO_NET_OFFLINE=true cargo build --release --offline >/var/tmp/msim$S/build.log 2>&1; then echo "build failed"; tail -5 /var/tmp/msim$S/build.log; git -C /var/tmp/mrepo$S reset -q --hard; exit 2; fi
 for p in "$@"; do
-  out=$(VERIF_DIR=/var/tmp/mverif VERIF_SCALE=${VERIF_SCALE:-1} /var/tmp/msim/target/release/tarpc-sim check "$p" 2>/dev/null); rc=$?
+  out=$(VERIF_DIR=/var/tmp/mverif$S VERIF_SCALE=${VERIF_SCALE:-1} /var/tmp/msim$S/target/release/tarpc-sim check "$p" 2>/dev/null); rc=$?
   echo "== $p exit=$rc"
   echo "$out" | grep -E "^(violation|VIOLATION|KNOWN|harness)" | cut -c1-300 | head -8
 done
-git -C /var/tmp/mrepo reset -q --hard
+git -C /var/tmp/mrepo$S reset -q --hard
